@@ -28,6 +28,7 @@ func checkC16(c *Ctx) {
 	c.checkForcedDownloadUnderMime()
 	c.checkAvatarLinkOnlyWithDesc()
 	c.checkAvatarLinkedAfterWrite()
+	c.checkAttachmentLoopVisitsEveryEntry()
 	c.checkHeadersBehindGates()
 }
 
